@@ -152,4 +152,29 @@ structure Ordered (h : Hier) : Prop where
   byName : h.sortByRank = false → h.looms.Pairwise (fun a b => cmpStr a.name b.name = .lt)
   looms : ∀ l ∈ h.looms, LoomOrdered l
 
+/-! ### The hierarchy is the union -/
+
+/-- What a successful `build` contains, in terms of the union. -/
+structure Content (ss : List StreamMeta) (h : Hier) : Prop where
+  /-- the looms are the loom names of the thread streams -/
+  looms : ∀ n, (∃ l ∈ h.looms, l.name = n) ↔ ∃ s ∈ ss, isThr s ∧ s.tp.loom = some n
+  /-- the CPUs of a loom are its CPU facts -/
+  cpus : ∀ l ∈ h.looms, ∀ i p,
+    (∃ c ∈ l.cpus, c.index = i ∧ c.phyid = p) ↔ (l.name, some (i, p)) ∈ cpuFacts ss
+  /-- and their indices are exactly `0 .. ncpus-1` -/
+  cpuIndex : ∀ l ∈ h.looms, (l.cpus.map (·.index)).Nodup ∧
+    ∀ c ∈ l.cpus, 0 ≤ c.index ∧ c.index < (l.cpus.length : Int)
+  /-- the processes of a loom are the (loom, pid) pairs of the thread streams -/
+  procs : ∀ l ∈ h.looms, ∀ pid,
+    (∃ p ∈ l.procs, p.pid = pid) ↔ ∃ tid, (some l.name, pid, tid) ∈ thrKeys ss
+  /-- the app id of a process is the one written by its threads -/
+  appid : ∀ l ∈ h.looms, ∀ p ∈ l.procs, (l.name, p.pid, p.appid) ∈ appFacts ss
+  /-- rank and rank count are the ones written by its threads, or absent -/
+  rank : ∀ l ∈ h.looms, ∀ p ∈ l.procs,
+    (p.rank = -1 ∧ p.nranks = 0 ∧ ∀ r k, (l.name, p.pid, r, k) ∉ rankFacts ss) ∨
+    (l.name, p.pid, p.rank, some p.nranks) ∈ rankFacts ss
+  /-- the threads of a process are the thread streams with that (loom, pid) -/
+  threads : ∀ l ∈ h.looms, ∀ p ∈ l.procs, ∀ tid,
+    (∃ t ∈ p.threads, t.tid = tid) ↔ (some l.name, p.pid, tid) ∈ thrKeys ss
+
 end Ovni.Emu.System
